@@ -1,35 +1,35 @@
 import RsslVerif.Lemmas.Layout
-import RsslVerif.Lemmas.LayoutFix
 /-!
 # C19 — layout-consistency validation is sound
 
-Statements are about `Model.Layout.get` / `checkAll` (the model of `get_type_layout` / `check_layout`,
-driven by the op programs regenerated from `/repo` into `Gen.LayoutTables`) and the independent
-reference calculators `Spec.Layout.hlslSB` / `Spec.Layout.metal`.
+Statements are about `Model.Layout.get` / `offsetsMatch` / `checkAll` (the model of `get_type_layout`,
+`offsets_match` and the final loop of `check_layout`, driven by the op programs regenerated from `/repo`
+into `Gen.LayoutTables`) and the independent reference calculators `Spec.Layout.hlslSB` /
+`Spec.Layout.metal`.  Every theorem below is at full strength: the only hypotheses are that the element
+type has a reference layout at all (`wf`: the property's grid — half/int/uint/float/double, vectors of
+1–4, 32-bit enums, arrays of ≥ 1 element, non-empty structs, nested to any depth) and, for the
+no-panic / completeness statements, that the two reference sizes fit in `u32`.
 
-The full-strength statements
-
-* `check_sound  : wf t → checkAll [t] = .ok → Agree t`  (accepted ⇒ same size, same offset of every field)
-* `reported_true: wf t → checkAll [t] = .mismatch 0 h m → h.size = size .hlsl t ∧ m.size = size .metal t`
-
-are **false on the pinned tree**; their negations are proved below with concrete witnesses
-(`check_sound_refuted`, `reported_true_refuted`) which the correspondence run replays on the real code
-(corpus/C19.txt).  What does hold is proved for every type of the stated classes, of any size and depth.
+History: on the tree before /repo commit 0414772 the statements `check_sound` and `reported_sizes_true`
+were false (`{struct{float2;float}; float}` accepted with 16 vs 24 bytes, `{half; half2; float}` accepted
+with offsets 2 vs 4, `{struct{float2;float}; float; float3}` rejected reporting Metal 32 instead of 48);
+the negation witnesses proved then are kept in notes/C19.md and as regression inputs in corpus/C19.txt.
 -/
 namespace RsslVerif.Thm.C19
 open RsslVerif.Gen.LayoutTables RsslVerif.Model.Layout RsslVerif.Spec.Layout RsslVerif.Lemmas.Layout
-open RsslVerif.Lemmas.LayoutFix
 
 /-! ## Tie to the source tables -/
 
 /-- `ScalarType::get_size` gives the reference byte sizes on the property's scalar grid, `bool` has no
-    layout, and the arms of `get_type_layout` have the kinds the model assumes. -/
+    layout, the arms of `get_type_layout` have the kinds the model assumes, and `check_layout` calls
+    `offsets_match` and compares sizes and offsets. -/
 theorem tables_pinned :
     (∀ s, sized s = true → scalarSize s = some (bytes s)) ∧ boolHasNoLayout = true ∧
     layerKind .Scalar = .scalar ∧ layerKind .Vector = .vector ∧ layerKind .Struct = .struct ∧
     layerKind .ArraySized = .array ∧ layerKind .Enum = .underlying ∧ layerKind .Modifier = .inner ∧
     layerKind .Matrix = .none ∧ layerKind .ArrayUnsized = .none ∧ layerKind .Object = .none ∧
-    layerKind .Void = .none := by
+    layerKind .Void = .none ∧ hasOffsetsMatch = true ∧ checkCompare = .sizeAndOffsets ∧
+    offsetsModifierIsInner = true := by
   refine ⟨fun s => by cases s <;> decide, ?_⟩
   decide
 
@@ -41,189 +41,103 @@ theorem checked_sites :
       "BufferAddressLoad", "RWBufferAddressLoad", "RWBufferAddressStore"] := by
   decide
 
-/-! ## The full statements are false: witnesses -/
+/-! ## The property -/
 
-private def f : Ty := .scalar .Float32
-private def h : Ty := .scalar .Float16
-private def S (l : List Ty) : Ty := .struct (Tys.ofList l)
+/-- `get_type_layout` returns the reference size and alignment of every type of the grid, under both
+    rule sets. -/
+theorem get_matches_spec (m : Mode) (t : Ty) (l : Layout) (hw : wf t = true) (h : get m t = .ok l) :
+    l = ⟨size m t, align m t⟩ := by
+  obtain ⟨s, a⟩ := get_spec m t l hw h
+  cases l; simp only [Layout.mk.injEq]; exact ⟨s, a⟩
 
-/-- `{ struct{float2; float}; float }` -/
-def witnessNested : Ty := S [S [.vec .Float32 2, f], f]
-/-- `{ half; half2; float }` -/
-def witnessOffsets : Ty := S [h, .vec .Float16 2, f]
-/-- `{ struct{float2; float}[2] }` -/
-def witnessArray : Ty := S [.arr (S [.vec .Float32 2, f]) 2]
-/-- `{ struct{float2; float}; float; float3 }` -/
-def witnessReported : Ty := S [S [.vec .Float32 2, f], f, .vec .Float32 3]
+/-- structural form of soundness: accepted ⇒ every listed element type has the same total size and the
+    same relative offset of every member at every nesting level (and the same array strides) -/
+theorem check_sound_agree (ts : List Ty) (h : checkAll ts = .ok) (t : Ty) (ht : t ∈ ts)
+    (hw : wf t = true) : Agree t :=
+  (checkOne_spec hw (checkFrom_ok ts 0 h t ht)).1 rfl
 
-/-- accepted although Metal lays the struct out in 24 bytes and HLSL in 16 (nested tail padding) -/
-theorem check_unsound_nested :
-    wf witnessNested = true ∧ checkAll [witnessNested] = .ok ∧
-    size .hlsl witnessNested = 16 ∧ size .metal witnessNested = 24 := by decide
-
-/-- accepted with equal sizes (12/12) although the second field is at offset 2 under HLSL packing and
-    at offset 4 under Metal: sizes are compared, offsets are not -/
-theorem check_unsound_offsets :
-    wf witnessOffsets = true ∧ checkAll [witnessOffsets] = .ok ∧
-    size .hlsl witnessOffsets = size .metal witnessOffsets ∧
-    offsets .hlsl (Tys.ofList [h, .vec .Float16 2, f]) 0 = [0, 2, 8] ∧
-    offsets .metal (Tys.ofList [h, .vec .Float16 2, f]) 0 = [0, 4, 8] := by decide
-
-/-- accepted although the array stride is 12 under HLSL packing and 16 under Metal -/
-theorem check_unsound_array :
-    wf witnessArray = true ∧ checkAll [witnessArray] = .ok ∧
-    size .hlsl witnessArray = 24 ∧ size .metal witnessArray = 32 := by decide
-
-/-- **negation of the desired `check_sound`** -/
-theorem check_sound_refuted : ¬ ∀ t : Ty, wf t = true → checkAll [t] = .ok → Agree t := by
-  intro hall
-  exact absurd (hall witnessOffsets (by decide) (by decide)) (by decide)
-
-/-- rejected, but the reported Metal size (32) is not the true one (48) -/
-theorem reported_true_refuted :
-    ¬ ∀ (t : Ty) (lh lm : Layout), wf t = true → checkAll [t] = .mismatch 0 lh lm →
-        lh.size = size .hlsl t ∧ lm.size = size .metal t := by
-  intro hall
-  have := hall witnessReported ⟨28, 4⟩ ⟨32, 16⟩ (by decide) (by decide)
-  exact absurd this.2 (by decide)
-
-/-! ## What does hold, for every type of the stated class (any size, any nesting depth) -/
-
-/-- **Reported sizes are true sizes (partial).**  If no struct strictly below `t` needs tail padding
-    under rule `m`, then whatever `get_type_layout` returns has the reference alignment, and its size
-    rounded up to that alignment (what `check_layout` reports) is the reference size.
-    Partial: the hypothesis `noInnerTailPad` excludes exactly the types on which the pinned
-    `get_type_layout` is wrong (`reported_true_refuted`). -/
-theorem get_matches_spec_partial (m : Mode) (t : Ty) (l : Layout) (hw : wf t = true)
-    (hp : noInnerTailPad m t = true) (h : get m t = .ok l) :
-    l.align = align m t ∧ roundUp l.size l.align = size m t := by
-  obtain ⟨a, s⟩ := get_spec m t l hw hp h
-  exact ⟨a, by rw [a, s, roundUp_raw m t hw]⟩
-
-/-- flat structs (members are scalars, vectors, enums): the sizes are always the true ones -/
-theorem get_matches_spec_flat (m : Mode) (ms : Tys) (l : Layout) (hw : wf (.struct ms) = true)
-    (hf : flat ms = true) (h : get m (.struct ms) = .ok l) :
-    l.align = align m (.struct ms) ∧ roundUp l.size l.align = size m (.struct ms) :=
-  get_matches_spec_partial m (.struct ms) l hw (closedAll_of_flat m ms hf) h
-
-/-- on the class without inner tail padding `check_layout` decides exactly "the two reference sizes are
-    equal", and what it reports on rejection are the reference sizes and alignments -/
-theorem check_decides_sizes_partial (t : Ty) (r : Option (Layout × Layout)) (hw : wf t = true)
-    (hh : noInnerTailPad .hlsl t = true) (hm : noInnerTailPad .metal t = true)
-    (h : checkOne t = .ok r) :
-    r = if size .hlsl t ≠ size .metal t then
-          some (⟨size .hlsl t, align .hlsl t⟩, ⟨size .metal t, align .metal t⟩) else none :=
-  checkOne_spec hw hh hm h
-
-/-- **rejected ⇒ the reported sizes are the true sizes (partial: no inner tail padding)** -/
-theorem reported_true_partial (t : Ty) (lh lm : Layout) (hw : wf t = true)
-    (hh : noInnerTailPad .hlsl t = true) (hm : noInnerTailPad .metal t = true)
-    (h : checkAll [t] = .mismatch 0 lh lm) :
-    lh = ⟨size .hlsl t, align .hlsl t⟩ ∧ lm = ⟨size .metal t, align .metal t⟩ := by
-  simp only [checkAll, checkFrom] at h
-  split at h
-  · cases h
-  · cases h
-  · rename_i a b hc
-    have := checkOne_spec hw hh hm hc
-    split at this
-    · cases this; cases h; exact ⟨rfl, rfl⟩
-    · cases this
-  · cases h
-
-/-- **Soundness (partial).**  For every list of element types: if `check_layout` accepts, then every
-    type of the list that (a) has no inner tail padding under the Metal rules and (b) is laid out without
-    any padding by HLSL structured-buffer packing has the same total size and the same offset for
-    every field, recursively, under both rules.
-    Partial: (a) and (b) are needed on the pinned tree — `check_unsound_nested`/`check_unsound_array`
-    violate (a), `check_unsound_offsets` violates (b). -/
-theorem check_sound_partial (ts : List Ty) (h : checkAll ts = .ok) (t : Ty) (ht : t ∈ ts)
-    (hw : wf t = true) (hm : noInnerTailPad .metal t = true) (hd : hlslDense t) : Agree t := by
-  have hh : noInnerTailPad .hlsl t = true := noInner_of_closed _ t (dense_closed _ t hw hd)
-  have hc := checkFrom_ok ts 0 h t ht
-  have := checkOne_spec hw hh hm hc
-  have hs : size .hlsl t = size .metal t := by
-    by_cases e : size .hlsl t = size .metal t
-    · exact e
-    · simp only [ne_eq, e, not_false_eq_true, if_true] at this; cases this
-  exact ⟨hs, dense_agree t hw hd (by rw [← hs]; exact hd)⟩
-
-/-- `Agree` is what the property says in terms of the two reference calculators: the same total size
-    and the same absolute byte offset for every field, recursively (every array element included) -/
-theorem agree_same_size_and_fields (t : Ty) (hw : wf t = true) (h : Agree t) :
+/-- **Soundness.**  If `check_layout` accepts the element types `ts`, then for every one of them the two
+    reference calculators give the same total size and the same absolute byte offset for every field,
+    recursively (every array element included). -/
+theorem check_sound (ts : List Ty) (h : checkAll ts = .ok) (t : Ty) (ht : t ∈ ts) (hw : wf t = true) :
     ∃ rh rm, hlslSB t = some rh ∧ metal t = some rm ∧ rh.size = rm.size ∧ rh.fields = rm.fields := by
+  have ha := check_sound_agree ts h t ht hw
   refine ⟨⟨size .hlsl t, align .hlsl t, fieldsAt .hlsl t 0⟩, ⟨size .metal t, align .metal t, fieldsAt .metal t 0⟩,
-    by simp only [hlslSB, ref, hw, if_true], by simp only [metal, ref, hw, if_true], h.1, ?_⟩
-  exact agree_fields t h.2 0
+    by simp only [hlslSB, ref, hw, if_true], by simp only [metal, ref, hw, if_true], ha.1, ?_⟩
+  exact agree_fields t ha.2 0
 
-/-- without vectors (scalars, enums, arrays and structs of them, to any depth) the two rule sets give
-    the same layout, whatever the checker says -/
-theorem vector_free_agree (t : Ty) (hv : vectorFree t = true) : Agree t :=
-  ⟨(vectorFree_same t hv).2.1, (vectorFree_same t hv).2.2⟩
+/-- **Reported sizes are the true sizes.**  If `check_layout` rejects, the type it blames is the `i`-th
+    collected one and the sizes (and alignments) in the message are the reference ones. -/
+theorem reported_sizes_true (ts : List Ty) (i : Nat) (lh lm : Layout)
+    (h : checkAll ts = .mismatch i lh lm) :
+    ∃ t, ts[i]? = some t ∧ (wf t = true →
+      lh = ⟨size .hlsl t, align .hlsl t⟩ ∧ lm = ⟨size .metal t, align .metal t⟩ ∧
+      hlslSB t = some ⟨lh.size, lh.align, fieldsAt .hlsl t 0⟩ ∧
+      metal t = some ⟨lm.size, lm.align, fieldsAt .metal t 0⟩) := by
+  obtain ⟨t, ht, _, hc⟩ := checkFrom_mismatch ts 0 i lh lm h
+  refine ⟨t, by simpa using ht, fun hw => ?_⟩
+  obtain ⟨e1, e2⟩ := (checkOne_spec hw hc).2 lh lm rfl
+  subst e1; subst e2
+  exact ⟨rfl, rfl, by simp only [hlslSB, ref, hw, if_true], by simp only [metal, ref, hw, if_true]⟩
+
+/-- a rejection is never spurious: the blamed type really differs in total size or in some offset -/
+theorem rejected_differs (t : Ty) (lh lm : Layout) (hw : wf t = true)
+    (hh : size .hlsl t ≤ u32Max) (hm : size .metal t ≤ u32Max)
+    (h : checkAll [t] = .mismatch 0 lh lm) : ¬ Agree t := by
+  intro ha
+  have hc := checkOne_complete t hw hh hm ha
+  simp only [checkAll, checkFrom, hc] at h
+  cases h
+
+/-- **Completeness (no false rejection).**  Element types whose reference layouts agree (and whose
+    sizes fit `u32`) are all accepted. -/
+theorem check_complete (ts : List Ty)
+    (h : ∀ t ∈ ts, wf t = true ∧ size .hlsl t ≤ u32Max ∧ size .metal t ≤ u32Max ∧ Agree t) :
+    checkAll ts = .ok := by
+  unfold checkAll
+  generalize 0 = i
+  induction ts generalizing i with
+  | nil => rfl
+  | cons t ts ih =>
+    obtain ⟨hw, hh, hm, ha⟩ := h t (List.mem_cons_self ..)
+    simp only [checkFrom, checkOne_complete t hw hh hm ha]
+    exact ih (fun u hu => h u (List.mem_cons_of_mem _ hu)) (i + 1)
 
 /-- **No panic, no "unknown size" on the grid.**  For every type that has a reference layout and whose
-    two reference sizes fit in `u32`, `check_layout`'s loop body reaches the comparison: none of the
-    overflow / `unwrap` / `panic!` sites of `get_type_layout` fires and neither call returns `None`. -/
+    two reference sizes fit in `u32`, the loop body reaches the comparison: none of the overflow /
+    `unwrap` / `panic!` sites of `get_type_layout` and `offsets_match` fires, no call returns `None`. -/
 theorem check_total (t : Ty) (hw : wf t = true) (hh : size .hlsl t ≤ u32Max)
     (hm : size .metal t ≤ u32Max) : ∃ r, checkOne t = .ok r :=
   checkOne_total t hw hh hm
 
-/-- the computed size never exceeds the reference size and the alignment is always the reference
-    alignment — also on the types where the size is wrong (the defect only ever *under*-estimates) -/
-theorem get_le_spec (m : Mode) (t : Ty) (hw : wf t = true) (hb : size m t ≤ u32Max) :
-    ∃ l, get m t = .ok l ∧ l.size ≤ size m t ∧ l.align = align m t :=
-  get_total m t hw hb
+/-- without vectors (scalars, enums, arrays and structs of them, to any depth) the two rule sets give
+    the same layout -/
+theorem vector_free_agree (t : Ty) (hv : vectorFree t = true) : Agree t :=
+  ⟨(vectorFree_same t hv).2.1, (vectorFree_same t hv).2.2⟩
 
-/-- **No false rejection (partial).**  On the class without inner tail padding, a type whose two
-    reference layouts agree (and whose sizes fit `u32`) is accepted: the pinned checker errs only towards
-    accepting too much there. (Outside the class it also rejects agreeing types, see
-    `check_rejects_agreeing_witness`.) -/
-theorem check_accepts_agreeing_partial (t : Ty) (hw : wf t = true)
-    (hh : noInnerTailPad .hlsl t = true) (hm : noInnerTailPad .metal t = true)
-    (bh : size .hlsl t ≤ u32Max) (bm : size .metal t ≤ u32Max) (ha : Agree t) :
-    checkAll [t] = .ok := by
-  obtain ⟨r, hr⟩ := checkOne_total t hw bh bm
-  have := checkOne_spec hw hh hm hr
-  simp only [ne_eq, ha.1, not_true_eq_false, if_false] at this
-  subst this
-  simp only [checkAll, checkFrom, hr]
-
-/-- outside that class the pinned checker also rejects types whose layouts agree:
-    `{ struct{float2; half3}[4] }` is 64 bytes with identical offsets under both rules, but is
-    rejected as "56 vs 64" -/
-theorem check_rejects_agreeing_witness :
-    let t := S [.arr (S [.vec .Float32 2, .vec .Float16 3]) 4]
-    wf t = true ∧ Agree t ∧ size .hlsl t = 64 ∧ checkAll [t] = .mismatch 0 ⟨56, 4⟩ ⟨64, 8⟩ := by
-  decide
-
-/-! ## The candidate fix (notes/C19.md) restores the full statements
-
-`getFix` = `get` + one statement at the end of the `Struct` arm (op `.roundSizeToAlign`);
-`checkFix` additionally compares member offsets and array strides at every level
-(`Lemmas/LayoutFix.lean`).  These are statements about the *proposed* code, not about `/repo`. -/
-
-/-- full-strength `get_matches_spec` for the fixed `get_type_layout`: every type of the grid -/
-theorem fixed_get_matches_spec (m : Mode) (t : Ty) (l : Layout) (hw : wf t = true)
-    (h : getFix m t = .ok l) : l.size = size m t ∧ l.align = align m t :=
-  getFix_spec m t l hw h
-
-/-- full-strength `check_sound` for the fixed `check_layout`: no side condition on the type -/
-theorem fixed_check_sound (t : Ty) (hw : wf t = true) (h : checkFix t = .ok true) : Agree t :=
-  fix_sound t hw h
-
-/-! ### non-vacuity: a depth-3 type with arrays and vectors satisfies every hypothesis of
-    `check_sound_partial` and is accepted -/
+/-! ### non-vacuity and regression examples -/
+private def f : Ty := .scalar .Float32
+private def h : Ty := .scalar .Float16
 private def d : Ty := .scalar .Float64
-private def f4 : Ty := .vec .Float32 4
 private def f2 : Ty := .vec .Float32 2
+private def f4 : Ty := .vec .Float32 4
+private def S (l : List Ty) : Ty := .struct (Tys.ofList l)
+
+/-- a depth-3 type with arrays, vectors, an enum and nested structs is accepted -/
 private def deep : Ty :=
   S [f4, S [f2, f2, S [.vec .Float64 2, d, .enum .Int32, f, f2, d]], .arr f4 3, .arr (S [d, d]) 2, d, d]
 
-example : wf deep = true ∧ noInnerTailPad .metal deep = true ∧
-    hlslDense deep ∧ checkAll [f, deep] = .ok := by unfold hlslDense; decide
+example : wf deep = true ∧ checkAll [S [h, h], deep] = .ok := by decide
 
-/-- and a rejected one satisfies the hypotheses of `reported_true_partial` -/
-example : wf (S [f, f2]) = true ∧ noInnerTailPad .hlsl (S [f, f2]) = true ∧
-    checkAll [S [f, f2]] = .mismatch 0 ⟨12, 4⟩ ⟨16, 8⟩ := by decide
+/-- accepted although the member sizes differ: `{half3; float; float}` (half3 is 6 vs 8 bytes) -/
+example : checkAll [S [.vec .Float16 3, f, f]] = .ok := by decide
+
+/-- the shapes the pre-0414772 checker accepted are now rejected, with the true sizes -/
+example : checkAll [S [S [f2, f], f]] = .mismatch 0 ⟨16, 4⟩ ⟨24, 8⟩ := by decide
+example : checkAll [S [h, .vec .Float16 2, f]] = .mismatch 0 ⟨12, 4⟩ ⟨12, 4⟩ := by decide
+example : checkAll [S [.arr (S [f2, f]) 2]] = .mismatch 0 ⟨24, 4⟩ ⟨32, 8⟩ := by decide
+example : checkAll [S [S [f2, f], f, .vec .Float32 3]] = .mismatch 0 ⟨28, 4⟩ ⟨48, 16⟩ := by decide
+/-- and the one it rejected although the layouts agree is now accepted -/
+example : checkAll [S [.arr (S [f2, .vec .Float16 3]) 4]] = .ok := by decide
 
 end RsslVerif.Thm.C19
